@@ -1,4 +1,6 @@
 import Momo.Proof.TableProject
+import Momo.Proof.TableIdxUpd
+import Momo.Proof.TableIdxEx
 /-!
 # C07 — DataTable queries equal a brute-force scan; unique indexes are never violated
 
@@ -518,3 +520,137 @@ example : project visAll accSum t3 [0, 2] false (fun _ => true) = [[5, 7], [5, 7
     dedupFirst [] [[5, 7], [5, 7], [6, 7]] = [[5, 7], [6, 7]] := by decide
 
 end Momo.Table
+
+/-!
+## Finding F9 at bucket level (refined index model `Momo/Model/TableIdx.lean`, lemmas `Momo/Proof/TableIdx{Find,Upd}.lean`)
+
+The theorems above abstract the index hash tables to their lookup contract and therefore carry F9 as the hypothesis `NoF9`.
+Here one unique hash index is the bucket-level hash table of C01 (`HT.Table`, any bucket description `bs.sp` with `SpecOK`, any
+hash function `acc`, any fault value allowed by `FaultsOK`) holding entries `(entry identity, raw)`, with the lookups of
+`HashSet::pvFind` spelled out as "first examined position whose stored short hash and whose raw's CURRENT values match"; the
+single-column update runs the steps of `DataIndexes::UpdateRaw(raw, offset, item, assigner)` in their order. `IdxInv` = the C01
+table invariant + entries = rows + every entry inserted under the hash code of its row's current key + rows pairwise different
+on the index columns. Only the unique hash index is modelled at this level (the multi-hash index has the same two steps on a
+`HashMultiMap`; not done).
+-/
+namespace Momo.TIdx
+open Momo Momo.HT Momo.Table
+
+/-- **C07 / F9 (a)**: starting from a consistent index, the single-column update (any answer of the memory manager that lets it
+    complete) leaves the index consistent with the updated rows IF AND ONLY IF `PrepareRemove(raw)` did not settle on the entry
+    `Add(hashMixedKey)` had just made (or the old and the new hash code are equal: the entries are then interchangeable);
+    and it settles on the new entry exactly when the decidable layout condition `f9cond` holds in the table as `Add` left it:
+    the new entry is examined before the old one on the OLD key's probe path (earlier bucket, or same bucket and earlier in the
+    bucket's scan order) and its stored short hash equals the old hash code's short hash - the equality functor passes because
+    both entries hold the same raw. -/
+theorem C07_updcol_correct_iff (bs : BSpec) (acc : Acc) (st : Store) (u : UH) (raw col v : Nat) (f : Faults)
+    (ok : SpecOK bs.sp) (hF : FaultsOK bs.sp f) (hI : IdxInv bs acc st u) (hraw : raw ∈ st.map (·.id))
+    (u' : UH) (st' : Store) (hdone : updCol bs acc st u raw col v f = .done u' st')
+    (eOld : Item) (hO : eOld ∈ traverse u.t) (hOv : eOld.val = raw) :
+    (IdxInv bs acc st' u' ↔
+      (remTarget bs acc st u raw col v f ≠ some u.next ∨ hOldOf acc st u raw = hNewOf acc st u raw col v)) ∧
+    (remTarget bs acc st u raw col v f = some u.next ↔
+      f9cond bs (t1Of bs acc st u raw col v f) (hOldOf acc st u raw) (hNewOf acc st u raw col v) eOld.key u.next = true) :=
+  ⟨updcol_correct_iff bs acc st u raw col v f ok hF hI hraw u' st' hdone,
+   remTarget_new_iff bs acc st u raw col v f ok hF hI hraw u' st' hdone eOld hO hOv⟩
+
+/-- **C07 / F9 (c)**: a sufficient condition under which this code path is correct - so that a failure of a single-column
+    update in a layout where it holds is NOT finding F9: the short hashes of the old and the new hash code differ, or the lookup
+    of the old hash code does not examine the new entry at all (its bucket is not on the old key's probe path within the bound
+    of the old key's home bucket), or it examines the old entry first. -/
+theorem C07_updcol_safe_when_paths_disjoint (bs : BSpec) (acc : Acc) (st : Store) (u : UH) (raw col v : Nat) (f : Faults)
+    (ok : SpecOK bs.sp) (hF : FaultsOK bs.sp f) (hI : IdxInv bs acc st u) (hraw : raw ∈ st.map (·.id))
+    (u' : UH) (st' : Store) (hdone : updCol bs acc st u raw col v f = .done u' st')
+    (eOld : Item) (hO : eOld ∈ traverse u.t) (hOv : eOld.val = raw)
+    (hsafe : bs.short (hNewOf acc st u raw col v) ≠ bs.short (hOldOf acc st u raw) ∨
+      visitRank bs (t1Of bs acc st u raw col v f) (hOldOf acc st u raw) u.next = none ∨
+      before (visitRank bs (t1Of bs acc st u raw col v f) (hOldOf acc st u raw) u.next)
+             (visitRank bs (t1Of bs acc st u raw col v f) (hOldOf acc st u raw) eOld.key) = false) :
+    IdxInv bs acc st' u' := by
+  apply updcol_safe bs acc st u raw col v f ok hF hI hraw u' st' hdone eOld hO hOv
+  unfold f9cond
+  rcases hsafe with h | h | h
+  · have : (bs.short (hNewOf acc st u raw col v) == bs.short (hOldOf acc st u raw)) = false := by simpa using h
+    rw [this]; rfl
+  · rw [h]; simp [before]
+  · rw [h]; simp
+
+/-- **C07 / F9 (d)**: the stale state, exactly, with its frame. When `PrepareRemove` settled on the new entry, the update returns a
+    hash set with the same entries as before the update, each still under the hash code it had (so the raw's only entry sits
+    under the hash code of its OLD key while the row holds the new key - with different hash codes the index invariant is
+    violated, by (a)); every OTHER row is still found by `Find(raw)` at its own entry (frame: nothing else is affected); and
+    the updated row is found under its new key only in the accidental case that its old entry passes for the new key: equal
+    short hashes and a position that the lookup of the NEW hash code examines (`visitRank ≠ none`) - otherwise lookups of the
+    new key miss the row. -/
+theorem C07_updcol_stale_state (bs : BSpec) (acc : Acc) (st : Store) (u : UH) (raw col v : Nat) (f : Faults)
+    (ok : SpecOK bs.sp) (hF : FaultsOK bs.sp f) (hI : IdxInv bs acc st u) (hraw : raw ∈ st.map (·.id))
+    (u' : UH) (st' : Store) (hdone : updCol bs acc st u raw col v f = .done u' st')
+    (eOld : Item) (hO : eOld ∈ traverse u.t) (hOv : eOld.val = raw)
+    (hf9 : remTarget bs acc st u raw col v f = some u.next) :
+    (traverse u'.t).Perm (traverse u.t) ∧
+    (∀ it ∈ traverse u'.t, u'.hs it.key = u.hs it.key) ∧
+    (∀ it ∈ traverse u'.t, it.val = raw → u'.hs it.key = hOldOf acc st u raw) ∧
+    (∀ id ∈ st.map (·.id), id ≠ raw →
+      ∃ pos it, findRaw bs acc st' u' id = some pos ∧ itemAt bs.sp u'.t pos = some it ∧ it.val = id) ∧
+    ((findRaw bs acc st' u' raw).isSome ↔
+      ((bs.short (hOldOf acc st u raw) == bs.short (hNewOf acc st u raw col v)) = true ∧
+        visitRank bs u'.t (hNewOf acc st u raw col v) eOld.key ≠ none)) := by
+  obtain ⟨h1, h2, h3, h4⟩ := updcol_stale_state bs acc st u raw col v f ok hF hI hraw u' st' hdone eOld hO hOv hf9
+  refine ⟨h1, h2, ?_, h3, h4⟩
+  intro it hit hv
+  have hin := h1.mem_iff.mp hit
+  rw [h2 it hit, hI.stored it hin, hv]; rfl
+
+namespace F9w
+/-- the witness: 4 buckets of 3 slots (BucketOpen2N2<3>, 7-bit short hashes), index on column 0, hash code = the value.
+    Rows 0..6 with values 0 4 8 (home bucket 0, full), 1 5 9 (bucket 1, full), 12 (home bucket 0, displaced over bucket 1 to
+    bucket 3); then the row with value 5 is removed, so that bucket 1 has a free slot -/
+def bs : BSpec := open2N2part 2
+def acc : Acc := fun h _ v => h + v
+def st0 : Store := [0, 4, 8, 1, 5, 9, 12].zipIdx.map (fun (v, i) => ⟨i, i, i, [v]⟩)
+def st : Store := st0.filter (fun r => r.id != 4)
+def u : UH := removeRaw bs acc st0 (buildIdx bs acc st0 [0] [0, 1, 2, 3, 4, 5, 6]) 4
+/-- after `TryUpdate(row 6, column 0, 13)`: the row is not found under its new key, the other rows are, the entries and the hash
+    codes they sit under are those from before the update (row 6 still under 12), the row itself holds 13 -/
+def staleAfter : Bool :=
+  match updCol bs acc st u 6 0 13 {} with
+  | .done u' st' =>
+    lookupVals bs acc st' u' [13] == none && lookupVals bs acc st' u' [12] == none &&
+    [0, 4, 8, 1, 9].map (fun x => lookupVals bs acc st' u' [x]) == [some 0, some 1, some 2, some 3, some 5] &&
+    (traverse u'.t).map (fun it => (it.val, u'.hs it.key)) == (traverse u.t).map (fun it => (it.val, u.hs it.key)) &&
+    valsOf st' 6 == [13] && u'.hs 6 == 12
+  | _ => false
+end F9w
+
+/-- **C07 / F9 (b)**: the kernel-checked replay of the finding. New key 13 has home bucket 1, which has a free slot; the lookup
+    of the old key 12 walks bucket 0, then bucket 1, where it meets the entry just added (same raw, short hash 0 = 0) before it
+    reaches the old entry in bucket 3: `PrepareRemove` settles on the new entry (`remTarget = some u.next`, `f9cond`), it is
+    removed, and the row stays indexed under hash code 12 although its key is 13. -/
+theorem C07_updcol_F9_witness :
+    remTarget F9w.bs F9w.acc F9w.st F9w.u 6 0 13 {} = some F9w.u.next ∧
+    f9cond F9w.bs (t1Of F9w.bs F9w.acc F9w.st F9w.u 6 0 13 {}) (hOldOf F9w.acc F9w.st F9w.u 6)
+      (hNewOf F9w.acc F9w.st F9w.u 6 0 13) 6 F9w.u.next = true ∧
+    hOldOf F9w.acc F9w.st F9w.u 6 ≠ hNewOf F9w.acc F9w.st F9w.u 6 0 13 ∧
+    F9w.staleAfter = true := by
+  refine ⟨by decide +kernel, by decide +kernel, by decide +kernel, by decide +kernel⟩
+
+/-- non-vacuity: a one-row index (4 buckets of `BucketOpen2N2<3>`, the bucket kind of the DataTable indexes, which satisfies
+    `SpecOK`) satisfies every hypothesis of the theorems above, the update of its row from 0 to 4 completes, and - both keys have
+    home bucket 0, the bucket is scanned newest first, the short hashes are equal - `PrepareRemove` settles on the new entry:
+    by (a) the index invariant is lost -/
+example : SpecOK F9one.bs.sp ∧ FaultsOK F9one.bs.sp {} ∧ IdxInv F9one.bs F9one.acc F9one.st F9one.u ∧
+    (0 ∈ F9one.st.map (·.id)) ∧
+    ∃ u' st', updCol F9one.bs F9one.acc F9one.st F9one.u 0 0 4 {} = .done u' st' ∧
+      ¬ IdxInv F9one.bs F9one.acc st' u' := by
+  obtain ⟨u', st', hd⟩ := F9one.done
+  refine ⟨open2N2part_ok 2, fun _ => rfl, F9one.inv, by decide, u', st', hd, ?_⟩
+  intro hI'
+  have h := (C07_updcol_correct_iff F9one.bs F9one.acc F9one.st F9one.u 0 0 4 {} (open2N2part_ok 2) (fun _ => rfl)
+    F9one.inv (by decide) u' st' hd ⟨0, 0⟩ F9one.entry rfl).1.mp hI'
+  have h1 : remTarget F9one.bs F9one.acc F9one.st F9one.u 0 0 4 {} = some F9one.u.next := by decide +kernel
+  have h2 : hOldOf F9one.acc F9one.st F9one.u 0 ≠ hNewOf F9one.acc F9one.st F9one.u 0 0 4 := by decide +kernel
+  rcases h with h | h
+  · exact h h1
+  · exact h2 h
+
+end Momo.TIdx
